@@ -178,6 +178,9 @@ def r4_bounds(repo, rep, f, ctx):
     if i.rule in ('R3/quantile-order', 'R4/scale-sign'):
       i.rule = 'R4/' + i.rule.split('/', 1)[1]
       rep.instances.append(i)
+    elif i.rule in ('R2/one-distribution', 'R5/posterior-shape'):
+      i.rule = 'R1/response-summary-' + i.rule.split('/', 1)[1]
+      rep.instances.append(i)
 
 
 def run(repo, rep, tier):
@@ -190,6 +193,7 @@ def run(repo, rep, tier):
   r1_fixed_cost(repo, rep, f, ctx)
   r2_determinism(repo, rep, f, ctx)
   r3_scenario(repo, rep)
+  tbrrules.kwarg_subdict_rule(repo, rep, 'R3/scenario')
   r4_bounds(repo, rep, f, ctx)
   # the branch is chosen by the predicate
   tests = [n for n in ctx.g.nodes if n.kind == 'test' and norm(n.expr) == 'self._is_fixed_cost_scenario()']
